@@ -114,7 +114,7 @@ impl Prop for C13 {
         let heads = (
             vec((0u16..13, ts_strategy()), 0..=12),
             vec((0u16..13, ts_strategy()), 0..=12),
-            vec(prop_oneof![3 => 1u16..120, 1 => 120u16..600], 1..=6),
+            vec(prop_oneof![30 => 1u16..120, 10 => 120u16..600, 1 => Just(u16::MAX)], 1..=6),
             fit(),
         )
             .prop_map(|(heads, other, limits, fit_limits)| Case::Heads(HeadSet { heads, other, limits, fit_limits }));
@@ -196,7 +196,8 @@ fn check_heads(h: &HeadSet) -> Outcome {
     let mut sorted: Vec<u64> = model.values().copied().collect();
     sorted.sort_by(|a, b| b.cmp(a));
     let size_of_newest = |k: usize| -> usize { varint_len(k as u64) + sorted[..k].iter().map(|t| 32 + varint_len(*t)).sum::<usize>() };
-    let mut limits: Vec<usize> = h.limits.iter().map(|l| *l as usize).collect();
+    // 65535 stands for "as large as a limit can be"
+    let mut limits: Vec<usize> = h.limits.iter().map(|l| if *l == u16::MAX { usize::MAX } else { *l as usize }).collect();
     for (kraw, delta) in &h.fit_limits {
         let k = crate::engine::idx(*kraw, sorted.len() + 1);
         let l = (size_of_newest(k) as i64 + *delta as i64).max(1) as usize;
